@@ -210,25 +210,47 @@ Definition set_right (v : list val) (st : wnd) (x : val) : list val * wnd :=
   (set_nth (Z.to_nat (w_r st)) x v,
    {| w_l := w_l st; w_r := w_r st; w_n := n; w_s := w_s st; w_done := w_done st |}).
 
-Fixpoint ot_loop (fuel : nat) (fn : otfn) (t : list Z) (w : Z) (v : list val) (st : wnd) : list val * wnd :=
+Fixpoint ot_loop (fuel : nat) (kern : list val -> val) (strict : bool) (nilv : val) (t : list Z) (w : Z) (v : list val) (st : wnd)
+  : list val * wnd :=
   match fuel with
   | O => (v, st)
   | S f =>
-    let '(st1, okm) := move t v w (ot_strict fn) st in
+    let '(st1, okm) := move t v w strict st in
     if okm then
-      let x := if negb (w_n st1 =? 0) then ot_kernel fn (slice v (w_l st1) (w_r st1)) else ot_nil fn in
+      let x := if negb (w_n st1 =? 0) then kern (slice v (w_l st1) (w_r st1)) else nilv in
       let '(v2, st2) := set_right v st1 x in
-      ot_loop f fn t w v2 st2
+      ot_loop f kern strict nilv t w v2 st2
     else (v, st1)
   end.
 
-(* overTimeCall on one series; step = LOD step of the last LOD (ev.newWindow) *)
-Definition over_time (fn : otfn) (t : list Z) (w step : Z) (v : list val) : list val :=
+(* the window loop shared by overTimeCall and funcQuantileOverTime; step = LOD step of the last LOD (ev.newWindow) *)
+Definition over_time_gen (kern : list val -> val) (strict : bool) (nilv : val) (t : list Z) (w step : Z) (v : list val) : list val :=
   let n := zlen t in
   let st0 := {| w_l := n; w_r := n; w_n := 0; w_s := step; w_done := (n =? 0) |} in
-  let '(v', st) := ot_loop (S (length t)) fn t w v st0 in
+  let '(v', st) := ot_loop (S (length t)) kern strict nilv t w v st0 in
   (* fillPrefixWith(NilValue): indices [0, r) *)
   map (fun iv => if (Z.of_nat (fst iv) <? w_r st) then None else snd iv) (combine (seq 0 (length v')) v').
+
+(* overTimeCall on one series *)
+Definition over_time (fn : otfn) (t : list Z) (w step : Z) (v : list val) : list val :=
+  over_time_gen (ot_kernel fn) (ot_strict fn) (ot_nil fn) t w step v.
+
+(* funcQuantileOverTime (0 <= q <= 1): strict window; the present points of the window are COPIED
+   (getCopyOfValues), sorted, interpolated *)
+Definition quantile_over_time (q : Q) (t : list Z) (w step : Z) (v : list val) : list val :=
+  over_time_gen (quantile_def q) true None t w step v.
+
+(* funcPresentOverTime.  Faithful: "if p || lastSeen < t-ev.r { 1 } else { NilValue }" — a missing point gets 1
+   when NO point was seen within the range, and NilValue when one was.  Repaired: the comparison the other way. *)
+Fixpoint present_run (fixed : bool) (t : list Z) (v : list val) (r : Z) (last : option Z) : list val :=
+  match t, v with
+  | ti :: t', x :: v' =>
+      let p := is_some x in
+      let far := match last with None => true | Some ls => ls <? ti - r end in
+      let one := p || (if fixed then negb far else far) in
+      (if one then Some 1%Q else None) :: present_run fixed t' v' r (if p then Some ti else last)
+  | _, _ => []
+  end.
 
 (* ------------------------------------------------------------------ *)
 (* Storage contract (QuerySeries): raw rows = per raw series, per time slot, the list of recorded events.
@@ -275,11 +297,16 @@ Fixpoint add_raw (k : tags) (sl : list (list Z)) (gs : list (tags * list (list Z
   | [] => [(k, sl)]
   | (k', s') :: r => if tags_eqb k k' then (k', zip_app s' sl) :: r else (k', s') :: add_raw k sl r
   end.
-Definition storage (w : what) (gb : list nat) (qstep lodstep : Z) (data : list raw) : list series :=
+(* range = SeriesQuery.Range, tsstep = Timescale.Step, lodsteps = LOD step of every point of the axis:
+   queryStep is Range, else Timescale.Step, else the row's own LOD step (copyRowValuesAt) *)
+Definition storage (w : what) (gb : list nat) (range tsstep : Z) (lodsteps : list Z) (data : list raw) : list series :=
   let gs := fold_left (fun gs r => add_raw (skey gb r) (r_slots r) gs) data [] in
   (* a series exists only if it has a row in some slot *)
   filter (fun s => existsb is_some (snd s))
-         (map (fun g => (fst g, map (row_value w qstep lodstep) (snd g))) gs).
+         (map (fun g => (fst g, map (fun p : Z * list Z =>
+                                      let ls := fst p in
+                                      let qs := if range =? 0 then (if tsstep =? 0 then ls else tsstep) else range in
+                                      row_value w qs ls (snd p)) (combine lodsteps (snd g)))) gs).
 
 (* ------------------------------------------------------------------ *)
 (* Expressions: a selector wrapped by a chain of unary nodes (innermost first). *)
@@ -288,7 +315,9 @@ Inductive node :=
 | NMatrix (range : Z)                                   (* sel[R]          *)
 | NSubquery (range : Z)                                 (* expr[R:]        *)
 | NAgg (op : aggop) (q : Q) (without : bool) (g : list nat)
-| NCall (fn : otfn).                                    (* fn_over_time(.) *)
+| NCall (fn : otfn)                                     (* fn_over_time(.) *)
+| NCallQ (q : Q)                                        (* quantile_over_time(q, .) *)
+| NPresent.                                             (* present_over_time(.) *)
 
 Record sel := { s_what : what;      (* explicit __what__ matcher, WNone if absent *)
                 s_by : bool }.      (* explicit __by__ listing every tag: blocks reductions *)
@@ -432,6 +461,10 @@ Fixpoint eval_chain (fixed : bool) (t : list Z) (lodstep : Z) (chain : list node
   | NMatrix r :: rest | NSubquery r :: rest => eval_chain fixed t lodstep rest r l
   | NCall fn :: rest =>
       eval_chain fixed t lodstep rest 0 (map (fun s => (fst s, over_time fn t evr lodstep (snd s))) l)
+  | NCallQ q :: rest =>
+      eval_chain fixed t lodstep rest 0 (map (fun s => (fst s, quantile_over_time q t evr lodstep (snd s))) l)
+  | NPresent :: rest =>
+      eval_chain fixed t lodstep rest 0 (map (fun s => (fst s, present_run fixed t (snd s) evr None)) l)
   | NAgg op q wo g :: rest =>
       eval_chain fixed t lodstep rest evr (aggregate fixed op q wo g l)
   end.
@@ -441,19 +474,24 @@ Definition finish (startx vs ve : Z) (l : list series) : list series :=
   map (fun s => (fst s, skipn (Z.to_nat startx) (snd s)))
       (filter (fun s => existsb is_some (slice (snd s) vs (ve - 1))) l).
 
-Record query := { q_counter : bool; q_ntags : nat; q_t : list Z; q_step : Z; (* uniform LOD: Timescale.Step = LOD step *)
+Record query := { q_counter : bool; q_ntags : nat; q_t : list Z;
+                  q_step : Z;                 (* Timescale.Step (the step requested) *)
+                  q_lods : list (Z * nat);    (* Timescale.LODs: (step, number of points), coarsest first *)
                   q_startx : Z; q_vs : Z; q_ve : Z }.
+Definition lodsteps (qy : query) : list Z := flat_map (fun l => repeat (fst l) (snd l)) (q_lods qy).
+(* ev.t.LODs[len-1].Step: the threshold of the reduction rules and the initial step of every window *)
+Definition stepmin (qy : query) : Z := fst (last (q_lods qy) (q_step qy, O)).
 
 Definition exec (fixed : bool) (qy : query) (data : list raw) (s : sel) (chain : list node) : list series :=
-  let '(w, gb, range, rest) := plan fixed (q_counter qy) (q_ntags qy) s chain (q_step qy) in
-  let qstep := if range =? 0 then q_step qy else range in
+  let '(w, gb, range, rest) := plan fixed (q_counter qy) (q_ntags qy) s chain (stepmin qy) in
   finish (q_startx qy) (q_vs qy) (q_ve qy)
-         (eval_chain fixed (q_t qy) (q_step qy) rest 0 (storage w gb qstep (q_step qy) data)).
+         (eval_chain fixed (q_t qy) (stepmin qy) rest 0 (storage w gb range (q_step qy) (lodsteps qy) data)).
 
 (* ------------------------------------------------------------------ *)
 (* funcTopK (outermost, single offset): weights and the admissible choices *)
-Definition weight_sq (step vs ve : Z) (v : list val) : Q :=
-  qsum (map (fun x => x * x * inject_Z step)%Q (present (slice v vs (ve - 1)))).
+Definition weight_sq (steps : list Z) (vs ve : Z) (v : list val) : Q :=
+  qsum (map (fun p : Z * val => match snd p with Some x => (x * x * inject_Z (fst p))%Q | None => 0%Q end)
+            (slice (combine steps v) vs (ve - 1))).
 Fixpoint nondec (prev : option Q) (l : list Q) : bool :=
   match l with
   | [] => true
@@ -461,10 +499,10 @@ Fixpoint nondec (prev : option Q) (l : list Q) : bool :=
   end.
 (* last present value scanning from ViewEndX-1 down to index 0 (sic) *)
 Definition last_upto (ve : Z) (v : list val) : val := f_last (slice v 0 (ve - 1)).
-Definition weights (step vs ve : Z) (ds : list (list val)) : list val :=
+Definition weights (steps : list Z) (vs ve : Z) (ds : list (list val)) : list val :=
   if forallb (fun v => nondec None (present (slice v vs (ve - 1)))) ds
   then map (last_upto ve) ds                    (* None stands for -MaxFloat64 *)
-  else map (fun v => Some (weight_sq step vs ve v)) ds.
+  else map (fun v => Some (weight_sq steps vs ve v)) ds.
 (* a <= b with None = -MaxFloat64 *)
 Definition wle (a b : val) : bool :=
   match a, b with None, _ => true | Some _, None => false | Some x, Some y => Qle_bool x y end.
